@@ -264,6 +264,49 @@ func soloRun(ctx context.Context, start *pgsim.DB, elems []bulkElem) ([]soloStep
 	return steps, nil
 }
 
+// soloRunInTx is the reference for ATOMIC bulks: the same requests issued one at a time,
+// through the plain controller API, by a caller that holds one transaction opened with
+// Controller.BeginTX ("the same request on its own, at the same position" for an element
+// of an atomic bulk is the request executed inside that transaction after the same
+// prefix). Nothing is committed. Standalone requests are not an exact reference there:
+// each standalone write on a still-initializing (e.g. just imported) ledger re-runs the
+// state tracker's sequence resynchronisation, so ids burnt by a failed element are
+// handed out again, which cannot happen inside one transaction.
+func soloRunInTx(ctx context.Context, start *pgsim.DB, elems []bulkElem) ([]soloStep, error) {
+	pg := start.Clone()
+	w := world.Attach(pg)
+	defer w.Close()
+	ctrl, err := w.Sys.GetLedgerController(ctx, "l1")
+	if err != nil {
+		return nil, err
+	}
+	txCtrl, _, err := ctrl.BeginTX(ctx, nil)
+	if err != nil {
+		return nil, fmt.Errorf("BeginTX: %w", err)
+	}
+	defer func() { _ = txCtrl.Rollback(ctx) }()
+	var steps []soloStep
+	for _, e := range elems {
+		if e.Solo.Kind == "invalid" {
+			steps = append(steps, soloStep{Class: "invalid"})
+			continue
+		}
+		out := lx.Apply(ctx, txCtrl, e.Solo)
+		if out.Class == "ENGINE" {
+			return nil, fmt.Errorf("solo-in-tx %s: %v", e.Name, out.Err)
+		}
+		st := soloStep{OK: out.Err == nil, Class: out.Class, Data: "null"}
+		if out.Err == nil {
+			st.LogID = *out.Log.ID
+			if out.Tx != nil {
+				st.Data = normOf(*out.Tx)
+			}
+		}
+		steps = append(steps, st)
+	}
+	return steps, nil
+}
+
 type c32 struct {
 	r        *ev.Run
 	outcomes *counter
@@ -314,7 +357,7 @@ func (c *c32) viol(bc bulkCase, kind, format string, a ...any) {
 
 // check runs one bulk with one option set on a clone and evaluates the oracle against
 // the solo run of the same elements.
-func (c *c32) check(ctx context.Context, start *pgsim.DB, startObs string, bc bulkCase, solo []soloStep) {
+func (c *c32) check(ctx context.Context, start *pgsim.DB, startObs string, bc bulkCase, solo, soloTx []soloStep) {
 	pg := start.Clone()
 	if bc.Opts.Parallel {
 		pg.Mode = pgsim.ModeFree // real goroutines: lock waits park instead of being reported as self-deadlocks
@@ -410,6 +453,9 @@ func (c *c32) check(ctx context.Context, start *pgsim.DB, startObs string, bc bu
 			continue
 		}
 		s := solo[i]
+		if mode == "atomic" {
+			s = soloTx[i]
+		}
 		switch {
 		case !failed && res.ResponseType != bc.Elems[i].Act:
 			c.viol(bc, "result-order", "result %d has responseType %s, element %d is %s", i, res.ResponseType, i, bc.Elems[i].Act)
@@ -706,9 +752,14 @@ func runC32() int {
 			r.EngineError(fmt.Sprintf("solo run %s: %v", j.state, err))
 			return
 		}
+		soloTx, err := soloRunInTx(ctx, states[j.state], j.elems)
+		if err != nil {
+			r.EngineError(fmt.Sprintf("solo run in one transaction %s: %v", j.state, err))
+			return
+		}
 		for _, o := range optsList {
 			bc := bulkCase{State: j.state, Elems: j.elems, Opts: o}
-			c.check(ctx, states[j.state], startObs[j.state], bc, solo)
+			c.check(ctx, states[j.state], startObs[j.state], bc, solo, soloTx)
 		}
 		if i%211 == 0 {
 			var cls []string
@@ -776,7 +827,7 @@ func runC32() int {
 		"exhaustive":          complete,
 		"rule": "evaluation = one bulk posted through the real JSON bulk handler and Bulker over the real ledger controller stack on a clone of a pgsim start state; space = every bulk of length<=2 over the 16-element menu (create transaction by postings/script/with reference/with idempotency key, add and delete metadata on account and transaction, revert; failing elements: insufficient funds, unknown transaction, already reverted, reference conflict, invalid postings, invalid target type) plus every bulk of length 3 over the " +
 			"6-element core menu (quick) / the full menu (thorough), x start state {pristine (initializing), in-use, just imported} x {sequential, sequential+continueOnFailure, atomic, atomic+continueOnFailure, parallel, parallel+continueOnFailure, atomic+parallel}; " +
-			"oracle: one result per element; sequential and atomic: result i belongs to element i and equals (data and log id, clock fields removed) what the same request returns when the elements are applied one by one as separate requests on a clone (differential); atomic: any failure => database dump unchanged, no failure => ledger reads as after applying all; sequential: ledger reads as after applying elements up to the first failure (all, with continueOnFailure), later elements report errors; " +
+			"oracle: one result per element; sequential and atomic: result i belongs to element i and equals (data and log id, clock fields removed) what the same request returns when the elements are applied one by one through the plain controller on a clone (differential: as separate requests for sequential bulks, as separate calls inside one Controller.BeginTX transaction for atomic bulks); atomic: any failure => database dump unchanged, no failure => ledger reads as after applying all; sequential: ledger reads as after applying elements up to the first failure (all, with continueOnFailure), later elements report errors; " +
 			"parallel: ONLY 'exactly one result per element' is checked (elements run on a free-running worker pool, their interleaving is not explored here); atomic+parallel must be refused without effect. distinct_nontrivial = sequential/atomic bulks with a failing element followed by at least one more element",
 	}
 	return r.Finish(cov, []string{pgsimAssumption,
